@@ -145,6 +145,88 @@ func mutate(fset *token.FileSet, f *ast.File, op string, n int, rel string) (sit
 				}
 				return true
 			})
+		case "wrongvar":
+			// an operand replaced by another variable of the function (parameters and locals, in order of first
+			// appearance: the next and the previous one are tried; the type checker discards what does not fit)
+			var names []string
+			seen := map[string]bool{}
+			addName := func(id *ast.Ident) {
+				if id == nil || id.Name == "_" || seen[id.Name] || id.Obj == nil || id.Obj.Kind != ast.Var {
+					return
+				}
+				seen[id.Name] = true
+				names = append(names, id.Name)
+			}
+			if fd.Recv != nil {
+				for _, f := range fd.Recv.List {
+					for _, n := range f.Names {
+						addName(n)
+					}
+				}
+			}
+			for _, f := range fd.Type.Params.List {
+				for _, n := range f.Names {
+					addName(n)
+				}
+			}
+			ast.Inspect(fd.Body, func(nd ast.Node) bool {
+				if id, ok := nd.(*ast.Ident); ok {
+					addName(id)
+				}
+				return true
+			})
+			if len(names) < 2 {
+				break
+			}
+			idx := map[string]int{}
+			for i, n := range names {
+				idx[n] = i
+			}
+			operand := func(e *ast.Expr) {
+				id, ok := (*e).(*ast.Ident)
+				if !ok || id.Obj == nil || id.Obj.Kind != ast.Var {
+					return
+				}
+				i, known := idx[id.Name]
+				if !known {
+					return
+				}
+				for _, d := range []int{1, len(names) - 1} {
+					alt := names[(i+d)%len(names)]
+					if alt == id.Name {
+						continue
+					}
+					if hit(fmt.Sprintf("%s: %s -> %s", pos(id.Pos()), id.Name, alt), fname) {
+						*e = &ast.Ident{NamePos: id.NamePos, Name: alt}
+						applied = true
+					}
+				}
+			}
+			ast.Inspect(fd.Body, func(nd ast.Node) bool {
+				switch x := nd.(type) {
+				case *ast.CallExpr:
+					for i := range x.Args {
+						operand(&x.Args[i])
+					}
+				case *ast.BinaryExpr:
+					operand(&x.X)
+					operand(&x.Y)
+				case *ast.SendStmt:
+					operand(&x.Chan)
+					operand(&x.Value)
+				case *ast.IndexExpr:
+					operand(&x.Index)
+				case *ast.ReturnStmt:
+					for i := range x.Results {
+						operand(&x.Results[i])
+					}
+				case *ast.KeyValueExpr:
+					operand(&x.Value)
+				case *ast.UnaryExpr:
+					operand(&x.X)
+				}
+				return true
+			})
 		case "boollit":
 			ast.Inspect(fd.Body, func(nd ast.Node) bool {
 				if id, ok := nd.(*ast.Ident); ok && (id.Name == "true" || id.Name == "false") {
@@ -319,7 +401,7 @@ func recvName(e ast.Expr) string {
 	return ""
 }
 
-var sweepOps = []string{"relop", "negate", "const", "swapargs", "delstmt", "swapstmt", "boollit", "branchstmt", "delcase", "dupstmt"}
+var sweepOps = []string{"relop", "negate", "const", "swapargs", "delstmt", "swapstmt", "boollit", "branchstmt", "delcase", "dupstmt", "wrongvar"}
 
 func sweep(id, vd string, limit int, relevant map[string]bool) map[string]any {
 	repo := repoDir()
@@ -330,7 +412,11 @@ func sweep(id, vd string, limit int, relevant map[string]bool) map[string]any {
 		if err != nil {
 			continue
 		}
-		for _, op := range sweepOps {
+		ops := sweepOps
+		if e := os.Getenv("VERIF_SWEEP_OPS"); e != "" {
+			ops = strings.Split(e, ",") // audit runs: one operator at a time
+		}
+		for _, op := range ops {
 			fset := token.NewFileSet()
 			f, err := parser.ParseFile(fset, rel, src, parser.ParseComments)
 			if err != nil {
@@ -465,6 +551,6 @@ func sweep(id, vd string, limit int, relevant map[string]bool) map[string]any {
 		"per_operator":    perOp,
 		"flagged_samples": sample,
 		"surviving":       survivors,
-		"note":            "first-order syntactic variants (relational/logical operator neighbours, negated if, integer literal +1, swapped adjacent arguments, deleted statement, swapped adjacent statements, flipped boolean literal, break/continue/return exchanged, deleted case, duplicated statement) of the functions in the property's anchor files; a surviving variant is either behaviour-preserving / irrelevant to this property or a blind spot of the rules; the sweep never changes the verdict",
+		"note":            "first-order syntactic variants (relational/logical operator neighbours, negated if, integer literal +1, swapped adjacent arguments, deleted statement, swapped adjacent statements, flipped boolean literal, break/continue/return exchanged, deleted case, duplicated statement, an operand replaced by a neighbouring variable) of the functions in the property's anchor files; a surviving variant is either behaviour-preserving / irrelevant to this property or a blind spot of the rules; the sweep never changes the verdict",
 	}
 }
